@@ -105,6 +105,10 @@ def mon_c02(run):
         op, t, tm = e[1], e[2], e[3]
         if op == "cancel":
             cancelled.add(t)
+        if op == "release" and e[4] == "VIRTUAL":
+            ti = info.get(t)
+            if ti is not None and ti["release"] is not None and ti["release"] >= 0 and tm is not None and tm < ti["release"]:
+                bad.append("task %s was released at %s, before the release time %s it was created with" % (t, tm, ti["release"]))
         if op == "finish":
             finishes[t] = finishes.get(t, 0) + 1
             fin[t] = e[6][0]
